@@ -340,7 +340,7 @@ REQUIRED_REACH = {
 # ----------------------------------------------------------------------------- workload
 def run(ctx):
     rng = ctx.rng
-    reps = 3 if ctx.tier == 'quick' else 40
+    reps = 3 if ctx.tier == 'quick' else 160
     i = 0
     for c in CLS:
         for op in OPS_FOR[c]:
